@@ -80,6 +80,9 @@ def SWEEP(tier):
                             # other start credentials / ports for the no-fault row
                             out.append({"opts": dict(opts, start="setuid-root-binary"), "fault": None})
                             out.append({"opts": dict(opts, port=7070), "fault": None})
+                            if su or sg:
+                                # pwd/grp report the id 4294967295 as -1, which set*id() take as "leave unchanged"
+                                out.append({"opts": dict(opts, uid=-1, gid=-1), "fault": None})
                             out.append({"opts": dict(opts, port=7070), "fault": {"point": "bind", "error": "EINVAL"}})
                             for pt in FAULT_POINTS:
                                 if not _applies(opts, pt):
@@ -411,7 +414,15 @@ def execute(sc, tape=None):
 
         priv_idx = [i for i, n in enumerate(names) if n in PRIV_CALLS]
         first_priv = priv_idx[0] if priv_idx else None
-        if sc["fault"] is None:
+        unusable = (opts["setuid"] and opts["uid"] < 0) or (opts["setgid"] and opts["gid"] < 0)
+        if sc["fault"] is None and unusable:
+            # the configured account has the id (uid_t)-1, which set*id() read as "leave unchanged":
+            # the only safe outcome is that start-up aborts
+            if srv is not None and (m.uid == 0 or m.gid == 0):
+                viol = V("unusable-id-aborts-startup",
+                         "the configured account maps to id -1; initialize returned a server that still runs as "
+                         "uid/gid %r/%r" % (m.uid, m.gid))
+        elif sc["fault"] is None:
             if srv is None:
                 viol = V("startup-succeeds", "initialize raised %r with no injected failure" % (result["exc"],),
                          exc=type(result["exc"]).__name__)
